@@ -151,7 +151,7 @@ func strip(v ssa.Value) ssa.Value {
 				}
 				if fv, ok := x.X.(*ssa.FreeVar); ok {
 					if b := freeVarBinding(fv); b != nil {
-						if a, ok := b.(*ssa.Alloc); ok {
+						if a, ok := b.(*ssa.Alloc); ok && !cellSharedByClosure(a, fv.Parent()) {
 							if s := singleStore(a); s != nil {
 								v = s
 								continue
@@ -883,4 +883,39 @@ func subStores(a ssa.Value) []ssa.Value {
 		}
 	}
 	return out
+}
+
+// cellSharedByClosure: the local cell a, captured by closure fn, is allocated
+// outside a loop that contains the closure's creation site: every iteration
+// (and every goroutine or callback created there) shares the one variable, so
+// a single static store does not identify the value a later load sees.
+func cellSharedByClosure(a *ssa.Alloc, fn *ssa.Function) bool {
+	par := a.Parent()
+	for _, b := range par.Blocks {
+		for _, in := range b.Instrs {
+			mc, ok := in.(*ssa.MakeClosure)
+			if !ok || mc.Fn != fn {
+				continue
+			}
+			sb := mc.Block()
+			if a.Block() == sb && instrIndex(a) < instrIndex(mc) {
+				continue
+			}
+			seen := map[*ssa.BasicBlock]bool{}
+			q := append([]*ssa.BasicBlock(nil), sb.Succs...)
+			for len(q) > 0 {
+				x := q[0]
+				q = q[1:]
+				if seen[x] || x == a.Block() {
+					continue
+				}
+				seen[x] = true
+				if x == sb {
+					return true
+				}
+				q = append(q, x.Succs...)
+			}
+		}
+	}
+	return false
 }
